@@ -402,6 +402,7 @@ static void probe_eb(const vrt::J &row, long index, EbStats *st) {
   // every row twice: with the position attribute (natt = 1) and without any attribute decoder (natt = 0); the header-only rows and the valence
   // rows that the oracle skipped are probed once
   for (int natt = 1; natt >= 0; --natt) {
+    if (natt == 1 && row["npd"].n > 1000) continue;     // index-width rows: the declared point count is the subject, not 25 MB of attribute storage
     const std::vector<char> bytes = assemble_eb(row, natt);
     std::vector<char> buf(bytes);
     const uint64_t h0 = vrt::fnv1a(buf.data(), buf.size());
